@@ -27,26 +27,35 @@ FMTS = [("%.5f", 5), ("%.2f", 2), ("%10.3f", 3), ("%.1f", 1)]
 LNF = [None, -1, 12, 16]
 SPACERS = [" ", "  ", "\t"]
 BOUNDS = {
-    "quick": {"shapes": [[1, 2], [2, 2], [4, 2], [4, 1]], "width_range": [20, 60], "task_budget_s": 900},
-    "thorough": {"shapes": [[1, 1], [1, 3], [2, 2], [3, 2], [4, 2], [4, 1], [6, 2], [7, 2]], "width_range": [20, 90], "task_budget_s": 3000},
+    "quick": {"shapes": [[1, 2], [2, 2], [4, 2], [4, 1]], "wide_shapes": [[28, 3]], "width_range": [20, 60], "task_budget_s": 900},
+    "thorough": {"shapes": [[1, 1], [1, 3], [2, 2], [3, 2], [4, 2], [4, 1], [6, 2], [7, 2]], "wide_shapes": [[28, 3], [35, 2], [24, 2]], "width_range": [20, 90], "task_budget_s": 3000, "max_paths": 200000},
 }
 ASSUMPTIONS = [
     "samples are concrete floats (the listed magnitudes) with NaN at a symbolic non-index position; '%' formatting and float parsing are libc/numpy (executed, not encoded): the half-unit bound is checked on the values that come back",
     "data_width is a symbolic integer over the stated range, which starts above the widest field + spacer: narrower widths make textwrap split a number over two lines (not a supported combination) (textwrap runs unmodified over the symbolic width); the other options range over the listed finite sets; len_numeric_field=-1 comes with a non-empty spacer",
-    "curve counts up to 4 (quick) / 7 (thorough): the column arithmetic of wrapped lines is scale-free",
+    "curve counts up to 4 (quick) / 7 (thorough) over the full option product and every width; plus wide files (28 curves; thorough also 24 and 35) with the version/fmt/len_numeric_field/spacer options and three widths",
 ]
 WITNESS_TARGETS = ["wrapped-output", "every-wrapped-line-carries-the-same-count", "nan-written-as-null", "numpy-engine-read", "one-value-per-line"]
 EXCLUSIONS = {}
 
 
+NLOW = 2 * len(FMTS) * len(LNF) * len(SPACERS)  # version x fmt x len_numeric_field x spacer: the symbolic part of the selector
+NHIGH = 3 * 2 * 2  # header style x column_fmt x lhs_spacer: one task each (the cases are independent and run in parallel)
+
+
 def tasks(tier):
     b = BOUNDS[tier]
-    return [{"name": "c%d-r%d/%s" % (c, r, e), "params": {"c": c, "r": r, "engine": e, "wr": b["width_range"]}, "weight": c * r} for c, r in b["shapes"] for e in ("numpy", "normal")]
+    out = [{"name": "c%d-r%d/%s/h%d" % (c, r, e, hs), "params": {"c": c, "r": r, "engine": e, "wr": b["width_range"], "hsel": hs}, "weight": c * r}
+           for c, r in b["shapes"] for e in ("numpy", "normal") for hs in range(NHIGH)]
+    # many curves: an unwrapped row is longer than 256 characters (the LAS 1.2 line limit) and a wrapped row spans several lines
+    for c, r in b.get("wide_shapes", []):
+        out += [{"name": "c%d-r%d/%s/h0" % (c, r, e), "params": {"c": c, "r": r, "engine": e, "wr": b["width_range"], "hsel": 0, "widths": [b["width_range"][0], 79, b["width_range"][1]]}, "weight": c * r} for e in ("numpy", "normal")]
+    return out
 
 
 def build(ns, c, r, nanpos):
     las = ns.las.LASFile()
-    names = ["DEPT", "GR", "RHOB", "NPHI", "DT", "CALI", "SP"]
+    names = ["DEPT", "GR", "RHOB", "NPHI", "DT", "CALI", "SP"] + ["C%d" % q for q in range(7, 40)]
     k = 0
     for j in range(c):
         col = []
@@ -99,20 +108,25 @@ def harness(ns, params):
 
     def run():
         core.OPTS["concretize"] = True
-        sel = fresh_int("options", 0, NOPT - 1)
+        sel = fresh_int("options_low", 0, NLOW - 1)
+        hsel = params["hsel"]
         wrap = fresh_bool("wrap")
         width = fresh_int("data_width", wr[0], wr[1])
         nanp = fresh_int("nan_position", 0, max(0, (c - 1) * r - 1))
-        inputs = {"c": c, "r": r, "engine": engine, "options": sel, "wrap": wrap, "data_width": width, "nan_position": nanp}
+        inputs = {"c": c, "r": r, "engine": engine, "options_low": sel, "options_high": hsel, "wrap": wrap, "data_width": width, "nan_position": nanp}
         cx = core.ctx()
         cx.inputs = inputs
         apply_exclusions(inputs)
-        # the option selector is sampled by the solver along a few symbolic bits only (its full
-        # product is large): each path fixes it by binary search like any other symbolic integer
-        opts, prec, prec0 = options(sel.__index__())
+        # the option selector: its low part (96 values) is a symbolic integer fixed per path by binary search, its high
+        # part is the task's case (every combination is explored)
+        opts, prec, prec0 = options(sel.__index__() + NLOW * hsel)
         wrap_c = bool(wrap)
         if not wrap_c:
             core.assume(z.eq_i(width.e, wr[0]))
+        if params.get("widths"):
+            core.assume(z.Or(z.eq_i(nanp.e, 0), z.eq_i(nanp.e, (c - 1) * r - 1)))  # wide files: NaN in the first or in the last cell
+        if wrap_c and params.get("widths"):
+            core.assume(z.Or([z.eq_i(width.e, w_) for w_ in params["widths"]]))  # wide files: three widths (the line arithmetic is covered by the narrow shapes)
         las = build(ns, c, r, nanp.__index__() if c > 1 else None)
         before = [np.array(cv.data, copy=True) for cv in list.__iter__(las.curves)]
         core.witness("wrapped-output", wrap_c)
@@ -171,7 +185,7 @@ def replay(i):
     ns = NS()
     ns.las = lasio.las
     c, r, engine = i["c"], i["r"], i["engine"]
-    opts, prec, prec0 = options(i["options"])
+    opts, prec, prec0 = options(i["options"] if "options" in i else i["options_low"] + NLOW * i["options_high"])
     las = build(ns, c, r, i["nan_position"] if c > 1 else None)
     before = [np.array(cv.data, copy=True) for cv in las.curves]
     o = io.StringIO()
